@@ -152,11 +152,39 @@ def items(G):
     yield G.nat(F, "multiSigMoreThan", int_at(*ms, 3, "len(points) > 1"))
     yield G.nat(F, "multiSigOpChecksigAdd", int_at(*ms, 5, "0xBA"))
     yield G.nat(F, "multiSigOpNumEqual", int_at(*ms, 6, "0x87"))
-    # MuSigTapScript.__init__ literals: len(points) == 0, coefs[1] = 1, 0xAC
-    mu = (T, "MuSigTapScript.__init__", 4)
-    yield G.nat(F, "muSigCoefIndex", int_at(*mu, 1, "coefs[1]"))
-    yield G.nat(F, "muSigCoefValue", int_at(*mu, 2, "= 1"))
-    yield G.nat(F, "muSigOpChecksig", int_at(*mu, 3, "0xAC"))
+    # MuSigTapScript.__init__ (repaired, F13a): `second = next((b for b in xonlys if b != xonlys[0]), None)` and
+    # `1 if b == second else <hash>`: the index of the reference key, the fixed coefficient, and 0xAC
+    MU = "MuSigTapScript.__init__"
+
+    def mu_first_index():
+        fn = G.node(T, MU)
+        ns = _walk_sorted(fn, lambda n: isinstance(n, ast.Call) and isinstance(n.func, ast.Name) and n.func.id == "next")
+        if len(ns) != 1:
+            _unl(f"{MU}: expected one next(...) selecting the second distinct key")
+        subs = _walk_sorted(ns[0], lambda n: isinstance(n, ast.Subscript) and isinstance(n.value, ast.Name)
+                            and n.value.id == "xonlys" and not isinstance(n.slice, ast.Slice))
+        cmps = _walk_sorted(ns[0], lambda n: isinstance(n, ast.Compare) and len(n.ops) == 1 and isinstance(n.ops[0], ast.NotEq))
+        if len(subs) != 1 or len(cmps) != 1:
+            _unl(f"{MU}: expected `b != xonlys[i]` inside next(...)")
+        return G.ev(T, subs[0].slice), f"{T}:{subs[0].lineno}"
+    yield G.nat(F, "muSigFirstIndex", mu_first_index)
+
+    def mu_coef_value():
+        fn = G.node(T, MU)
+        ns = _walk_sorted(fn, lambda n: isinstance(n, ast.IfExp) and isinstance(n.test, ast.Compare)
+                          and len(n.test.ops) == 1 and isinstance(n.test.ops[0], ast.Eq)
+                          and any(isinstance(x, ast.Name) and x.id == "second" for x in ast.walk(n.test)))
+        if len(ns) != 1:
+            _unl(f"{MU}: expected one `<c> if b == second else <hash>`")
+        return G.ev(T, ns[0].body), f"{T}:{ns[0].lineno}"
+    yield G.nat(F, "muSigCoefValue", mu_coef_value)
+
+    def mu_checksig():
+        cs = G.int_consts(T, MU)
+        if not cs:
+            _unl(f"{MU}: no integer literal")
+        return cs[-1]
+    yield G.nat(F, "muSigOpChecksig", mu_checksig)
     yield G.nat(F, "p2pkTapOpChecksig", int_at(T, "P2PKTapScript.__init__", 1, 0, "0xAC"))
     yield G.nat(F, "locktimeOpCltv", int_at(T, "locktime_commands", 2, 0, "0xB1"))
     yield G.nat(F, "locktimeOpDrop", int_at(T, "locktime_commands", 2, 1, "0x75"))
